@@ -359,12 +359,18 @@ func init() {
 	}
 	ts := func(ex *Exec) *TermStore { return ex.ts }
 	reg("math/big.NewInt", func(ex *Exec, _ *frame, _ *ssa.Function, a []Value) Value {
+		if sh, ok := ex.intShadow[term(a[0])]; ok {
+			return bnew(ex, sh)
+		}
 		return bnew(ex, ts(ex).BV2Int(term(a[0]), true))
 	})
 	reg("(*math/big.Int).Set", func(ex *Exec, _ *frame, _ *ssa.Function, a []Value) Value {
 		return bset(ex, a[0], bget(ex, a[1]))
 	})
 	reg("(*math/big.Int).SetInt64", func(ex *Exec, _ *frame, _ *ssa.Function, a []Value) Value {
+		if sh, ok := ex.intShadow[term(a[1])]; ok {
+			return bset(ex, a[0], sh)
+		}
 		return bset(ex, a[0], ts(ex).BV2Int(term(a[1]), true))
 	})
 	reg("(*math/big.Int).SetUint64", func(ex *Exec, _ *frame, _ *ssa.Function, a []Value) Value {
@@ -586,8 +592,7 @@ func (ex *Exec) parseBigDigits(s *Str) (*Term, bool) {
 			}
 			return nil, false
 		}
-		d := ts.BV2Int(ts.BVBin(OpSub, b, ex.byteC('0')), false)
-		acc = ts.IntBin(OpIAdd, ts.IntBin(OpIMul, ten, acc), d)
+		acc = ts.IntBin(OpIAdd, ts.IntBin(OpIMul, ten, acc), ex.digitInt(b))
 	}
 	if neg {
 		acc = ts.INeg(acc)
@@ -628,10 +633,9 @@ func (ex *Exec) bigString(x *Term) *Str {
 	digits := make([]*Term, nd)
 	p := big.NewInt(1)
 	for i := 0; i < nd; i++ {
-		d := ex.freshAux("digit", BV(8))
-		digits[nd-1-i] = ts.BVBin(OpAdd, d, ex.byteC('0'))
-		ex.assume(ts.BVCmp(OpULe, d, ex.byteC(9)), true)
-		sum = ts.IntBin(OpIAdd, sum, ts.IntBin(OpIMul, ts.IntConst(p), ts.BV2Int(d, false)))
+		d, b := ex.witnessDigit()
+		digits[nd-1-i] = b
+		sum = ts.IntBin(OpIAdd, sum, ts.IntBin(OpIMul, ts.IntConst(p), d))
 		p = new(big.Int).Mul(p, big.NewInt(10))
 	}
 	if nd > 1 {
@@ -860,4 +864,38 @@ func (ex *Exec) jsonAny(nat any) Value {
 		return IfaceV{t: types.NewMap(types.Typ[types.String], anyT), v: mv}
 	}
 	panic(unsupported("jsonAny"))
+}
+
+// ---------- shopspring/decimal rendering of symbolic values ----------
+
+func init() {
+	decSym := func(ex *Exec, recv Value) bool {
+		st, ok := recv.(StructV)
+		if !ok || len(st) < 1 {
+			return false
+		}
+		p, ok := st[0].(*Value)
+		if !ok || p == nil {
+			return false
+		}
+		bs, ok := (*p).(StructV)
+		if !ok || len(bs) < 2 {
+			return false
+		}
+		b, ok := bs[1].(BigVal)
+		return ok && !b.t.IsConst()
+	}
+	opaqueOr := func(name string) intrinsicFn {
+		return func(ex *Exec, fr *frame, fn *ssa.Function, a []Value) Value {
+			if !decSym(ex, a[0]) || ex.run.cfg.ExactRender {
+				return ex.callSSA(fr, fn, a, nil)
+			}
+			ex.used(name + " of a symbolic decimal -> opaque token (content never inspected by encoded code; inspection aborts the path)")
+			v := ex.freshAux("opaque", BV(8))
+			return &Str{b: []*Term{v}}
+		}
+	}
+	for _, n := range []string{"String", "StringFixed", "StringFixedBank", "StringFixedCash"} {
+		reg("(github.com/shopspring/decimal.Decimal)."+n, opaqueOr("decimal.Decimal."+n))
+	}
 }
